@@ -52,7 +52,13 @@ DATE_FORMAT = '%Y-%m-%d %H:%M:%S'
 
 
 def oracle_ts(kind, text):
+    return oracle_ts_full(kind, text)[0]
+
+
+def oracle_ts_full(kind, text):
     """
+    -> (datetime | None, number of bytes of the line start the timestamp occupies)
+
     What the property says the timestamp of a line is: the first pattern of the
     matcher that matches at the start of the line, read as a calendar date/time;
     text that merely looks like a timestamp (not a real date) is no timestamp.
@@ -65,13 +71,14 @@ def oracle_ts(kind, text):
         if m:
             g = m.groupdict()
             year = int('20' + g['yy']) if 'yy' in g else int(g['year'])
+            mlen = len(text[:m.end()].encode('utf-8'))
             try:
                 return datetime(year, int(g['month']), int(g['day']),
                                 int(g['hours']), int(g['minutes']),
-                                int(g['seconds']))
+                                int(g['seconds'])), mlen
             except ValueError:
-                return None
-    return None
+                return None, 0
+    return None, 0
 
 
 def fmt_ts(kind, dt, rng=None):
